@@ -13,6 +13,7 @@ patch="$1"; id="$2"; shift 2
 case "$patch" in none|/*) ;; *) patch="$(pwd)/$patch" ;; esac
 mkdir -p $M/out
 if [ ! -d $M/repo ]; then git -C /repo worktree add -q --detach $M/repo HEAD; fi
+git -C $M/repo reset -q --hard
 git -C $M/repo checkout -q --detach "$(git -C /repo rev-parse HEAD)"
 git -C $M/repo reset -q --hard
 git -C $M/repo clean -qfd
